@@ -30,7 +30,7 @@ def positions():
 
 
 def parse_spec(spec):
-    m = re.match(r"d(\d+)(?:n(\d+))?(x?)(l?)$", spec)
+    m = re.match(r"d(\d+)(?:n(\d+))?(x?)(l?)(?:[sc]\d+)?(?:t[\d:]+)?$", spec)
     return int(m.group(1)), (int(m.group(2)) if m.group(2) else None), m.group(3) == "x", m.group(4) == "l"
 
 
@@ -48,7 +48,7 @@ def make_cases(tier, seed, groups):
         for i, (fen, ms) in enumerate(pos):
             pieces = sum(1 for ch in fen.split()[0] if ch.isalpha())
             maxd = 3 if pieces <= 10 else 2
-            if tier == "thorough" and pieces <= 6:
+            if pieces <= 4 or (tier == "thorough" and pieces <= 6):
                 maxd = 4
             for d in range(1, maxd + 1):
                 cases.append({"group": "value", "fen": fen, "moves": ms, "specs": ["d%d" % d]})
@@ -62,6 +62,25 @@ def make_cases(tier, seed, groups):
             if tier == "quick" and pieces > 20:
                 d = 2
             cases.append({"group": "budget-probe", "fen": fen, "moves": ms, "specs": ["d%d" % d], "depth": d})
+    if "cut" in groups:
+        # C13: interruption by stop / by the game clock at the K-th leaf evaluation (engine-side property check)
+        chosen = [pos[i] for i in (0, 2, 5, 13, 17)] if tier == "quick" else pos
+        for fen, ms in chosen:
+            pieces = sum(1 for ch in fen.split()[0] if ch.isalpha())
+            d = 3 if pieces <= 20 else 2
+            ks = [1, 2, 3, 5, 8, 13, 21, 34, 55, 89, 144, 233] if tier == "quick" else list(range(1, 400, 3))
+            for k in ks:
+                cases.append({"group": "cut", "fen": fen, "moves": ms, "specs": ["d%ds%d" % (d, k)], "nomodel": True})
+            for k in (ks[2::3] if tier == "quick" else ks[::4]):
+                cases.append({"group": "cut", "fen": fen, "moves": ms, "specs": ["d%dc%d" % (d, k)], "nomodel": True})
+    if "timer" in groups:
+        # C09: the time-management budget for both colours
+        for i in range(24 if tier == "quick" else 400):
+            w, b = rng.choice([0, 1, 19, 20, 999, 60000]), rng.choice([0, 1, 19, 20, 200, 60000])
+            wi, bi = rng.choice([0, 1, 3, 20000]), rng.choice([0, 1, 2, 500])
+            fen, ms = (pos[0][0], []) if i % 2 == 0 else (pos[0][0], ["e2e4"])
+            cases.append({"group": "timer", "fen": fen, "moves": ms, "specs": ["d1n1t%d:%d:%d:%d" % (w, b, wi, bi)],
+                          "nomodel": True, "clocks": [w, b, wi, bi], "black": i % 2 == 1})
     if "seq" in groups:
         # C12 / C16: sequences of searches of one position sharing the cache
         seqs = [["d3"], ["d4", "d3"], ["d2", "d4", "d3"], ["d3", "d3"], ["d1", "d2", "d3"]]
@@ -104,7 +123,7 @@ def run_model(cases, timeout=3000):
     def cost(c):
         pieces = sum(1 for ch in c["fen"].split()[0] if ch.isalpha())
         return sum(30 ** min(parse_spec(s)[0], 3) for s in c["specs"]) * pieces
-    order = sorted(range(len(cases)), key=lambda i: -cost(cases[i]))
+    order = sorted([i for i in range(len(cases)) if not cases[i].get("nomodel")], key=lambda i: -cost(cases[i]))
     items = []
     for i in order:
         c = cases[i]
@@ -221,7 +240,7 @@ def compare_case(case, eng, mod):
     return div
 
 
-def run(tier, seed, groups=("value", "budget", "seq")):
+def run(tier, seed, groups=("value", "budget", "seq", "cut", "timer")):
     ok, mlog = C.coq_make(MODEL_TARGETS)
     if not ok:
         return {"error": "model does not build", "log": mlog[-3000:]}
@@ -257,6 +276,8 @@ def run(tier, seed, groups=("value", "budget", "seq")):
             return {"error": "model evaluation failed", "log": lg[-3000:]}
         divs = []
         for i, (c, e, m) in enumerate(zip(cases, eng, mod)):
+            if c.get("nomodel"):
+                continue
             for d in compare_case(c, e, m):
                 divs.append([i, d])
         res = {"cases": cases, "engine": eng, "divergences": divs,
